@@ -577,6 +577,8 @@ var c11WireMethods = []c11WireMethod{
 	{"Privmsgf", "PRIVMSG", "", "", func(c *client.Conn, t, s string) { c.Privmsgf(t, "%s", s) }},
 	{"Privmsgln", "PRIVMSG", "", "", func(c *client.Conn, t, s string) { c.Privmsgln(t, s) }},
 	{"Action", "PRIVMSG", "\x01ACTION ", "\x01", func(c *client.Conn, t, s string) { c.Action(t, s) }},
+	// the text as the format itself, without operands: every % doubled, so that the formatted text is s again
+	{"Privmsgf(fmt)", "PRIVMSG", "", "", func(c *client.Conn, t, s string) { c.Privmsgf(t, strings.Replace(s, "%", "%%", -1)) }},
 }
 
 func c11FindWire(name string) *c11WireMethod {
